@@ -22,6 +22,10 @@ func (w *World) StartCallers(plans []*RPCPlan) *callerSet {
 		w.Plans[p.ID] = p
 		simrt.Go("caller", func() {
 			defer cs.finish()
+			if p.Role == "interest" {
+				w.runInterestCaller(p)
+				return
+			}
 			w.RunCaller(w.RootCtx, w.ClientConnFor(p), p)
 		})
 	}
@@ -87,3 +91,16 @@ func (w *World) onFrame() {
 
 // Note records free text in the history.
 func Note(s string) { simrt.Emit(simrt.Event{Kind: EvNote, S: s}) }
+
+// runInterestCaller is RunCaller under a name that identifies the RPC of
+// interest's caller goroutine in a stack dump.
+//
+//go:noinline
+func (w *World) runInterestCaller(p *RPCPlan) {
+	w.RunCaller(w.RootCtx, w.ClientConnFor(p), p)
+}
+
+// interestSender likewise for the sender goroutine of the RPC of interest.
+//
+//go:noinline
+func interestSender(f func()) { f() }
